@@ -164,6 +164,10 @@ func c11Catalogue(maxChain int) []option {
 	opts = append(opts, option{Label: "pathitemref", Plants: func(inst, pi int) []gen.Plant {
 		return []gen.Plant{gen.P(ref(pi, "pi.json#/x-items/pi"), "paths", []string{"/q", "/r/{x}"}[inst])}
 	}})
+	// a path item that has a $ref next to its own operations and parameters
+	opts = append(opts, option{Label: "pathitemref@basePath", Plants: func(inst, pi int) []gen.Plant {
+		return []gen.Plant{gen.P(ref(pi, "pi.json#/x-items/base"), "paths", pt)}
+	}})
 	// items $refs in simple schemas, nested 1..3
 	for depth := 1; depth <= 3; depth++ {
 		items := make([]string, depth)
